@@ -713,7 +713,7 @@ META = {
              'the reader performs four readline() per handle for all handles before an end-of-file test on the header line only; mates and files '
              'are paired positionally (R1 before R2); the cut-off is tested after all strategies ran. Does NOT decide that written bytes equal the '
              'input bases (C02), gzip validity, per-cell routing (C19) or the cluster submission path.'),
-    'technique': 'static analysis: exception-aware path enumeration with 3-valued guard evaluation over configuration atoms, interval analysis of table indices, string-shape analysis of serialisers',
+    'technique': 'static analysis: exception-aware path enumeration with 3-valued guard evaluation over configuration atoms, interval analysis of table indices, string-shape analysis of serialisers; interpretation of the rejection-reason expressions and of the chunk prefix on every group id',
     'design_ref': 'DESIGN.md section 5, C01',
 }
 
